@@ -20,18 +20,18 @@ import (
 // (clause c: value-changing events must not inflate accrued entitlements). Separately all positions
 // claim sequentially, in a rotating order, on one branch of the real state (clause a).
 type monC12 struct {
-	step          int
-	deficit       map[string]*big.Rat
-	ent           map[PosKey]sdk.Coins
-	precisionLoss bool
-	maxTokens     *big.Rat
+	step            int
+	deficit         map[string]*big.Rat
+	ent             map[PosKey]sdk.Coins
+	precisionLoss   bool
+	maxTokens       *big.Rat
 	inflatedBySlash bool
 }
 
 func newMonC12() *monC12 {
 	return &monC12{deficit: map[string]*big.Rat{}, ent: map[PosKey]sdk.Coins{}}
 }
-func (m *monC12) Name() string { return "C12" }
+func (m *monC12) Name() string     { return "C12" }
 func (m *monC12) Finish(r *Runner) {}
 
 // topUp gives the rewards pool (on a discarded branch) far more than anyone could claim.
